@@ -41,7 +41,7 @@ var R = hx.NewRecorder("C10", "cases = small PKIs (<=3 roots, <=5 intermediate c
 var cv = rsm2.Std
 
 func TestMain(m *testing.M) {
-	R.Require("cross_signed", "loop", "expired_intermediate", "pathlen_violation", "forged_sig", "nonCA_intermediate", "name_constraint_fail", "name_constraint_fail_mixed_forms", "critical_san_uri_only", "forged_twin_after_genuine", "intermediate_critical_ext", "uninterpreted_san:critical=true", "wildcard", "ip_san", "accept", "reject", "self_issued", "leaf_in_roots", "eku_reject", "critical_ext")
+	R.Require("cross_signed", "loop", "expired_intermediate", "pathlen_violation", "forged_sig", "nonCA_intermediate", "name_constraint_fail", "name_constraint_fail_mixed_forms", "critical_san_uri_only", "forged_twin_after_genuine", "intermediate_critical_ext", "uninterpreted_san:critical=true", "wildcard", "ip_san", "accept", "reject", "self_issued", "leaf_in_roots", "eku_reject", "critical_ext", "sigalg_sm2_with_sha", "leaf_name_spells_ip", "dnsname_spells_ip", "cn_spells_ip")
 	hx.Main(m, R)
 }
 
@@ -130,6 +130,12 @@ func build(t *rapid.T, p *pki) {
 			PermittedDNSDomains: s.permitted, PermittedDNSDomainsCritical: len(s.permitted) > 0, ExtKeyUsage: s.ekus, DNSNames: s.dns, IPAddresses: s.ips}
 		if s.cn != "" {
 			tpl.Subject.CommonName = s.cn
+		}
+		if k := gen.Uniform(t, "sigalg", 8); k < 2 {
+			// the two other signature-algorithm identifiers this package offers for SM2 keys: what the issuer's signer
+			// produces under them is a genuine signature of the issuer
+			tpl.SignatureAlgorithm = []gx.SignatureAlgorithm{gx.SM2WithSHA256, gx.SM2WithSHA1}[k]
+			R.Class("sigalg_sm2_with_sha")
 		}
 		if s.ncMixed > 0 && len(s.permitted) > 0 {
 			// permitted subtrees of two name forms in one (non-critical) extension: the rfc822Name subtree says nothing about
@@ -407,11 +413,18 @@ func drawPKI(t *rapid.T) *pki {
 		leaf.forged, leaf.signer = true, 99
 	}
 	leaf.ku = rapid.SampledFrom([]gx.KeyUsage{0, gx.KeyUsageDigitalSignature, gx.KeyUsageKeyEncipherment}).Draw(t, "leafku")
-	leaf.dns = rapid.SampledFrom([][]string{{"www.example.com"}, {"www.example.com"}, {"*.example.com"}, {"*.example.com"}, {"www.example.com", "alt.other.org"}, {"WWW.Example.COM"}, {"a.*.example.com"}, {"*.com"}, nil, {"example.com"}}).Draw(t, "dns")
+	leaf.dns = rapid.SampledFrom([][]string{{"www.example.com"}, {"www.example.com"}, {"*.example.com"}, {"*.example.com"}, {"www.example.com", "alt.other.org"}, {"WWW.Example.COM"}, {"a.*.example.com"}, {"*.com"}, nil, {"example.com"}, {"10.0.0.2"}, {"www.example.com", "10.0.0.2"}}).Draw(t, "dns")
 	if gen.OneIn(t, "ipsan", 3) {
 		leaf.ips = []net.IP{net.IPv4(10, 0, 0, 1).To4(), net.ParseIP("2001:db8::7")}
 	}
 	leaf.cn = "leaf.example.com"
+	if len(leaf.dns) == 0 && gen.OneIn(t, "cn_ip_text", 3) {
+		// a common name that spells an IP address: IP hosts are matched against iPAddress SANs only
+		leaf.cn = "10.0.0.2"
+	}
+	if leaf.cn == "10.0.0.2" || (len(leaf.dns) > 0 && leaf.dns[len(leaf.dns)-1] == "10.0.0.2") {
+		R.Class("leaf_name_spells_ip")
+	}
 	leaf.ekus = rapid.SampledFrom([][]gx.ExtKeyUsage{nil, nil, {gx.ExtKeyUsageServerAuth}, {gx.ExtKeyUsageClientAuth}, {gx.ExtKeyUsageAny}, {gx.ExtKeyUsageServerAuth, gx.ExtKeyUsageClientAuth}, {gx.ExtKeyUsageMicrosoftServerGatedCrypto}, {gx.ExtKeyUsageCodeSigning}}).Draw(t, "leafeku")
 	if len(leaf.ekus) == 0 && gen.OneIn(t, "unk", 8) {
 		leaf.unkEKU = true
@@ -1091,8 +1104,19 @@ func TestC10_Hostname(t *testing.T) {
 		if gen.OneIn(t, "related", 4) {
 			host = strings.Replace(pattern, "*", "sub", 1)
 		}
-		tpl := &gx.Certificate{SerialNumber: big.NewInt(1), Subject: pkix.Name{CommonName: "cn.invalid"}, NotBefore: tNow.Add(-time.Hour), NotAfter: tNow.Add(time.Hour),
-			SignatureAlgorithm: gx.SM2WithSM3, DNSNames: []string{pattern}, IPAddresses: []net.IP{net.IPv4(10, 0, 0, 1).To4()}}
+		dnsNames, cn := []string{pattern}, "cn.invalid"
+		switch gen.Uniform(t, "iptext", 8) {
+		case 0:
+			// a dNSName that spells an IP address no iPAddress SAN lists: IP hosts match iPAddress SANs only
+			dnsNames = append(dnsNames, "10.0.0.9")
+			R.Class("dnsname_spells_ip")
+		case 1:
+			// no dNSName at all and a common name that spells that address
+			dnsNames, cn, pattern = nil, "10.0.0.9", "10.0.0.9"
+			R.Class("cn_spells_ip")
+		}
+		tpl := &gx.Certificate{SerialNumber: big.NewInt(1), Subject: pkix.Name{CommonName: cn}, NotBefore: tNow.Add(-time.Hour), NotAfter: tNow.Add(time.Hour),
+			SignatureAlgorithm: gx.SM2WithSM3, DNSNames: dnsNames, IPAddresses: []net.IP{net.IPv4(10, 0, 0, 1).To4()}}
 		der, err := gx.CreateCertificate(tpl, tpl, sm2x.Pub(key.Pub), sm2x.Priv(key))
 		if err != nil {
 			t.Fatalf("create: %v", err)
